@@ -21,6 +21,45 @@ RULE = ("(a) histories of 1..25 callbacks: updateRectangle at and away from the 
 MODES = {m: pf for pf, m in vclient.PF2IM.items()}
 
 
+def cli_nocursor_leg(ctx):
+    """--nocursor as the user gives it (alone and together with --localcursor) through the real vncdo command line: cursor
+    shapes never reach the screen"""
+    from appgen import Vncdo
+    from appsession import Workdir
+    r = ctx.rng
+    with Workdir():
+        for localcursor in (False, True):
+            for _ in range(ctx.n(3, 20)):
+                v = Vncdo(["key", "a"], nocursor=True, localcursor=localcursor)
+                try:
+                    if v.factory is None:
+                        continue
+                    v.connect()
+                    pf = vclient.RGB32
+                    v.feed(b"RFB 003.008\n" + bytes([1, 1]) + struct.pack("!I", 0) + server_init(12, 8, pf, b"x"))
+                    sess = Session(pf)
+                    ref = Canvas()
+                    full = enc_raw(r, pf, 0, 0, 12, 8)
+                    cur = enc_cursor(r, pf, r.randrange(3), r.randrange(3), r.choice([3, 8]), r.choice([2, 4]))
+                    cur.body = cur.body[:len(cur.body) - ((cur.w + 7) // 8) * cur.h] + b"\xff" * (((cur.w + 7) // 8) * cur.h)
+                    upd = enc_raw(r, pf, 0, 0, 5, 3)
+                    for rects in ([full], [cur], [upd]):
+                        v.feed(sess.update(rects))
+                        for rc in rects:
+                            for (x, y, w, h, px) in rc.paint:
+                                ref.paint(x, y, w, h, px, pf)
+                    got, want = screen_rgb(v.proto), ref.rgb()
+                    ctx.count("cli_nocursor_sessions")
+                    ctx.case(None, key=("cli-nocursor", localcursor, hx(cur.body)[:16]))
+                    if got != want:
+                        ctx.violate("composition-cli-nocursor", {"input": {"command_line": "vncdo --nocursor" + (" --localcursor" if localcursor else "") + " key a",
+                                                                           "cursor_rect": [cur.x, cur.y, cur.w, cur.h]},
+                                                                 "observed": "the screen differs from what the server sent (a cursor shape was composited although --nocursor was given)",
+                                                                 "how": "the real vncdo() entry point with an in-memory transport: full update, cursor-shape update, small update under the pointer"})
+                finally:
+                    v.close()
+
+
 def wire_sessions(ctx):
     """the same property end to end: bytes of a conforming server through the real decoder into the screen.  Emphasis on
     desktop-size changes: announcing the size the desktop already has (after a partial or an over-grown image), up, down."""
@@ -175,6 +214,7 @@ def run(ctx):
                                             "observed": what, "how": "callbacks on a real VNCDoToolClient vs the reference canvas (latest write wins, never-sent pixels black)"})
         meta.append((len(lines), len(ml), gtok, mode, curs, ops, ml))
         lines += ml
+    cli_nocursor_leg(ctx)
     wire_meta, wire_lines = wire_sessions(ctx)
     mout = ctx.drive(lines + wire_lines)
     if mout is not None:
